@@ -294,7 +294,7 @@ type docGen struct {
 }
 
 func (g *docGen) directives() string {
-	if !g.r.Chance(1, 6) {
+	if !g.r.Chance(1, 4) {
 		return ""
 	}
 	out := ""
@@ -375,6 +375,19 @@ func (g *docGen) selSet(scope string, depth int, fragDepth int) string {
 				sel += " {" + g.selSet(bt.name, depth-1, fragDepth) + "}"
 			}
 			items = append(items, sel)
+			// the same field again under the same response key: the two field nodes are merged
+			// (a resolver error carries both locations, the sub-selections are concatenated)
+			if g.budget > 0 && g.r.Chance(1, 5) {
+				g.budget--
+				again := alias + f.name + g.directives()
+				if bt.composite() {
+					again += " {" + g.selSet(bt.name, depth-1, fragDepth) + "}"
+				}
+				if g.r.Chance(1, 3) && fragDepth > 0 {
+					again = "... {" + again + "}"
+				}
+				items = append(items, again)
+			}
 		case x < 13:
 			g.budget--
 			if g.r.Chance(1, 3) {
